@@ -319,10 +319,13 @@ def save_replay(cid, r):
     rdir = os.path.join(VERIF, "replays", cid) if REPO == "/repo" else os.path.join(VERIF, "work", repo_tag(REPO), cid, "replays")
     os.makedirs(rdir, exist_ok=True)
     saved = None
-    for p in glob.glob(os.path.join(r.wdir, "testdata", "rapid", "*", "*.fail")):
+    failed = r.failed_tests()
+    for p in sorted(glob.glob(os.path.join(r.wdir, "testdata", "rapid", "*", "*.fail"))):
         dst = os.path.join(rdir, os.path.basename(p))
         shutil.copyfile(p, dst)
-        saved = saved or dst
+        if saved is None or (failed and os.path.basename(p).split("-")[0] in failed
+                             and os.path.basename(saved).split("-")[0] not in failed):
+            saved = dst
     for p in glob.glob(os.path.join(r.wdir, "testdata", "fuzz", "*", "*")):
         d = os.path.join(rdir, "fuzz", os.path.basename(os.path.dirname(p)))
         os.makedirs(d, exist_ok=True)
@@ -360,10 +363,13 @@ def run_check(cid, tier, replay=None, build_only=False):
     jobs = []
     extra_notes = []
     fuzz_jobs = []
+    only_units = os.environ.get("VERIF_UNITS")
     for unit in cfg["units"]:
         tcfg = unit.get(tier)
         if tcfg is None:
             continue
+        if only_units and unit["name"] not in only_units.split(","):
+            continue  # development aid: run a subset of units (never used by registered commands)
         rc, binary, out, bt = build_unit(cid, unit)
         if rc != 0:
             print("BUILD FAILED (inconclusive) unit=%s\n%s" % (unit["name"], tail(out, 60)))
@@ -453,7 +459,7 @@ def run_check(cid, tier, replay=None, build_only=False):
 
     # file comparisons across units (e.g. cgo vs nocgo transcripts)
     cmp_viol = None
-    if status == "ok" and not replay:
+    if status == "ok" and not replay and not only_units:
         for a, b in cfg.get("compare_files", []):
             pa = os.path.join(VERIF, "work", repo_tag(REPO), cid, a)
             pb = os.path.join(VERIF, "work", repo_tag(REPO), cid, b)
@@ -464,7 +470,7 @@ def run_check(cid, tier, replay=None, build_only=False):
             la, lb = open(pa).read().splitlines(), open(pb).read().splitlines()
             if la != lb:
                 status = "violation"
-                rdir = os.path.join(VERIF, "replays", cid)
+                rdir = os.path.join(VERIF, "replays", cid) if REPO == "/repo" else os.path.join(VERIF, "work", repo_tag(REPO), cid, "replays")
                 os.makedirs(rdir, exist_ok=True)
                 cmp_viol = os.path.join(rdir, "transcript-diff.txt")
                 with open(cmp_viol, "w") as f:
